@@ -708,6 +708,7 @@ func (w *Walker) splitCall(fn *ssa.Function) (ssa.Instruction, []*ssa.Return) {
 			if a.effectFree[g] || a.isInlinable(g) || g.Signature.Results().Len() < 1 {
 				continue
 			}
+			pureHelper := false
 			if g.Object() != nil && g.Object().Exported() {
 				continue // anchors keep their summaries
 			}
@@ -716,6 +717,9 @@ func (w *Walker) splitCall(fn *ssa.Function) (ssa.Instruction, []*ssa.Return) {
 			}
 			sm := a.Summary(g)
 			if sm == nil {
+				continue
+			}
+			if sm.resIdx < 0 && pureHelper {
 				continue
 			}
 			if sm.resIdx < 0 {
@@ -758,7 +762,9 @@ func (w *Walker) splitCall(fn *ssa.Function) (ssa.Instruction, []*ssa.Return) {
 				failing := false
 				switch sm.resKind {
 				case "error":
-					failing = isErrCtor(rt) || (rt.Key() != tNil.Key() && rt.Op != "phi" && !(wrappedErr(rt) != nil && wrappedErr(rt).Key() == tNil.Key()))
+					// (a delegated verdict `return check(..)` is a possibly-successful site: explored with check(..) == nil assumed)
+					delegated := rt.Op == "call" && !isErrCtor(rt) && wrappedErr(rt) == nil && a.calleeOf(rt) != nil
+					failing = isErrCtor(rt) || (rt.Key() != tNil.Key() && rt.Op != "phi" && !delegated && !(wrappedErr(rt) != nil && wrappedErr(rt).Key() == tNil.Key()))
 				case "bool":
 					failing = rt.Key() == tFalse.Key()
 				}
@@ -774,7 +780,12 @@ func (w *Walker) splitCall(fn *ssa.Function) (ssa.Instruction, []*ssa.Return) {
 				}
 				vals[strings.Join(ks, "|")] = true
 			}
-			if len(succ) < 2 || len(vals) < 2 || len(succ) > 4 {
+			// several successful return sites: with different values (extract-method returning results), or - for a
+			// verdict-only helper - reached under different conditions ("not my business" vs "checked and fine")
+			if len(succ) < 2 || len(succ) > 4 || (len(vals) < 2 && g.Signature.Results().Len() > 1) {
+				continue
+			}
+			if pureHelper && g.Signature.Results().Len() > 1 {
 				continue
 			}
 			return in, append(succ, nil)
